@@ -227,6 +227,10 @@ func (P *Program) Explore(cfg Config) (*Result, error) {
 		if err != nil {
 			return nil, err
 		}
+		if lf := os.Getenv("VERIF_SMTLOG"); lf != "" && w == 0 {
+			f, _ := os.Create(lf)
+			solver.Log = f
+		}
 		wg.Add(1)
 		go func(solver *Solver) {
 			defer wg.Done()
@@ -247,8 +251,11 @@ func (P *Program) Explore(cfg Config) (*Result, error) {
 				busy++
 				mu.Unlock()
 
+				mu.Lock()
+				needSamples := len(res.Samples) < cfg.MaxSamples
+				mu.Unlock()
 				want := func(p *Path) bool {
-					return cfg.SampleMod > 0 && hashDecisions(p.taken, cfg.Seed)%cfg.SampleMod == 0
+					return needSamples && cfg.SampleMod > 0 && hashDecisions(p.taken, cfg.Seed)%cfg.SampleMod == 0
 				}
 				pr, alts, p := P.RunPath(solver, entry, prefix, want)
 				for f, c := range p.fnCount {
